@@ -307,7 +307,7 @@ class EnvBP():
         diffs += [self.update_bond_(bond) for bond in self.bonds('v')]
         diffs += [self.update_bond_(bond[::-1]) for bond in self.bonds('v')[::-1]]
         #
-        return max(diffs)
+        return max(diffs, default=0.)
 
     def update_bond_(env, bond):
         #
